@@ -18,13 +18,16 @@ structure Global where
   groupSet : Bool := false
   group : Nat := 0
   allowSymlinks : Bool := true
+  permsSet : Bool := false           -- econf_requirePermissions
+  permsFile : Nat := 0
+  permsDir : Nat := 0
   confDirs : List Str := []          -- econf_set_conf_dirs
   errFile : Str := []                -- last_scanned_filename
   errLine : Nat := 0                 -- last_scanned_line_nr
   deriving Repr, DecidableEq
 
 /-- `econf_reset_security_settings` -/
-def resetSecurity (g : Global) : Global := { g with ownerSet := false, groupSet := false, allowSymlinks := true }
+def resetSecurity (g : Global) : Global := { g with ownerSet := false, groupSet := false, permsSet := false, allowSymlinks := true }
 
 /-- observable I/O of a read: callback invocations and opened files, in order -/
 inductive Event where
@@ -55,12 +58,23 @@ def isLinkNode : Node → Bool
   | .link _ _ _ => true
   | _ => false
 
+/-- permission bits as `lstat` reports them for what the scenarios create (files 0644, directories 0755,
+    symbolic links 0777) -/
+def modeOf : Node → Nat
+  | .file _ _ _ => 0o644
+  | .link _ _ _ => 0o777
+  | .dir => 0o755
+def DIRMODE : Nat := 0o755
+
 /-- The checks of `read_file_with_callback` between `lstat` and the callback, in their order:
-    symbolic link, owner, group.  `none` = the file passes. -/
+    symbolic link, owner, group, then – with `econf_requirePermissions` – one of the required bits on the
+    file and one on its directory.  `none` = the file passes. -/
 def gate (g : Global) (node : Node) : Option Err :=
   if !g.allowSymlinks && isLinkNode node then some .fileIsSymLink
   else if g.ownerSet && (ownerOf node).1 != g.owner then some .wrongOwner
   else if g.groupSet && (ownerOf node).2 != g.group then some .wrongGroup
+  else if g.permsSet && (modeOf node &&& g.permsFile) == 0 then some .wrongFilePermission
+  else if g.permsSet && (DIRMODE &&& g.permsDir) == 0 then some .wrongDirPermission
   else none
 
 /-- The file is open: read and parse it, record the error location. -/
